@@ -82,7 +82,7 @@ UNITS = [
 PY_BEARING = {"block", "def", "multiexpr", "control", "loop", "calldef", "modblock"}
 
 RAISERS = ["expr", "expr-multiline", "block-line", "module-func", "control-cond", "attr-expr", "filter", "in-def", "block-oneline",
-           "for-iterable-loop", "for-iterable", "while-cond", "def-call-arg", "module-func-not-last"]
+           "for-iterable-loop", "for-iterable", "while-cond", "def-call-arg", "module-func-not-last", "def-filter-blank"]
 
 
 def raiser(kind, k):
@@ -116,6 +116,11 @@ def raiser(kind, k):
         return '<%include file="${boom()}"/>\n', 0, []
     if kind == "filter":
         return "${'x' | badfilter}\n", 0, []
+    if kind == "def-filter-blank":
+        # the filter of a def raises when the def finishes; the last construct of its body is a text run that begins on a
+        # BLANK line: the frame is a template frame at that (empty) line, not a frame of the generated module
+        return ('<%def name="rf9()" filter="badfilter">\n% if True:\nx\n' + "y\n" * k + "% endif\n\ntail text\n</%def>\n${rf9()}\n",
+                4 + k, [7 + k])
     if kind == "in-def":
         return '<%def name="rd9()">\n' + "text\n" * k + "${boom()}\n</%def>\n${rd9()}\n", 1 + k, [3 + k]
     raise AssertionError(kind)
